@@ -129,6 +129,6 @@ FACTS = [
     r'constexpr T& operator \*\(\) const \{ return \*ptr; \}',
 ]
 
-UNIT = Unit('stdex', PRELUDE + cvector_struct('cvec', 'uint32_t'), make_cvector('cvec', 'uint32_t'),
+UNIT = Unit('stdex', PRELUDE + cvector_struct('cvecv', 'uint32_t') + cvector_struct('cvec16', 'size16_t'), make_cvector('cvecv', 'uint32_t') + make_cvector('cvec16', 'size16_t'),
             consts=[('VX_FACT_%d' % i, '(' + rx + ')', None) for i, rx in enumerate(FACTS) if False])
 UNIT.facts = FACTS
